@@ -72,8 +72,8 @@ class Gen:
         self.P = profile
         self.sid_counter = self.R.choice([0, 0, 0, 7, 8, 96, 98, 997])     # ids such as S9/S10/S100 coexist
         self.iid_counter = self.R.choice([0, 0, 0, 8, 97])
-        self.sid_style = self.R.choice(['S%d', 'STORY%d', 'st;%d', 'é%d', 'a&b<%d>', '%d'])
-        self.iid_style = self.R.choice(['I%d', 'ITEM%d', 'it;%d', 'ü%d', '%d'])
+        self.sid_style = self.R.choice(['S%d', 'STORY%d', 'st;%d', 'é%d', 'a&b<%d>', '%d', "O'B;%d", 'q"%d"', '[%d]', 'a b %d'])
+        self.iid_style = self.R.choice(['I%d', 'ITEM%d', 'it;%d', 'ü%d', '%d', "IT'S;%d", 'i"%d', '*[%d]'])
         self.graveyard_s = []
         self.graveyard_i = []
         self.rich = profile.get('rich', True) and self.R.random() < 0.8
@@ -94,6 +94,11 @@ class Gen:
     def gen_other(self, depth=0):
         R = self.R
         tag = R.choice(['storyPresenter', 'storyPresenterRR', 'mosAbstract', 'note', 'custom', 'x-y', 'storyNum'])
+        if depth >= 2 and R.random() < 0.12:
+            # body-level names nested deeper are not part of the story body
+            if R.random() < 0.7:
+                return ['p', {}, gen_ptext(R), '', []]
+            return N('item', T('itemID', 'nested-%d' % R.randint(1, 9)), T('itemSlug', 'nested'))
         if depth >= 2 and R.random() < 0.10:
             # names that mean something at the top level must mean nothing down here
             tag = R.choice(['roCreate', 'roDelete', 'mosromgrmeta', 'roStorySend', 'roElementAction', 'roReplace', 'messageID', 'storyBody'])
@@ -119,7 +124,16 @@ class Gen:
                     pl.append(T(k, timing[k]))
             R.shuffle(pl)
         if note is not None:
-            pl.append(N('studioCommands', N('studioCommand', T('text', note), type='note')))
+            k = R.random()
+            if k < 0.7:
+                pl.append(N('studioCommands', N('studioCommand', T('text', note), type='note')))
+            elif k < 0.8:
+                pl.append(N('studioCommands', N('studioCommand', type='note')))                 # a note command without text
+            elif k < 0.9:
+                pl.append(N('studioCommands', N('studioCommand', T('text', note), type='cue'),
+                            N('studioCommand', T('other', 'x'), T('text', note + '!'), type='note')))
+            else:
+                pl.append(N('studioCommand', T('text', ''), type='note'))
         if R.random() < 0.3:
             pl.append(self.gen_other(1))
         ch = [T('mosSchema', schema), N('mosPayload', *pl)] if schema is not None else [N('mosPayload', *pl)]
@@ -490,7 +504,7 @@ class Ncs(Gen):
             return next(x[2] for x in it[4] if x[0] == 'itemID')
 
         if level == 'item':
-            sref, sshape = self.ref_story(allow_blank=True, allow_missing=False)
+            sref, sshape = self.ref_story(allow_blank=True, allow_missing=True)
             op['story'] = sref
             sh['story'] = sshape
             entry = self.story_entry(sref) if isinstance(sref, str) else None
@@ -506,7 +520,7 @@ class Ncs(Gen):
                 sh['target'] = 'end'
             else:
                 allow_blank = True
-                op['target'], sh['target'] = self.ref_story(allow_blank=allow_blank)
+                op['target'], sh['target'] = self.ref_story(allow_blank=allow_blank, allow_missing=(t == 'StoryInsert'))
                 op['tform'] = 'blank' if op['target'] is None else 'id'
             op['payload'] = self.new_stories(R.randint(1, 4), dup_ok=True)
             new = [[node_sid(s), _iids(s)] for s in op['payload'] if node_sid(s) not in sids]
@@ -518,7 +532,7 @@ class Ncs(Gen):
             elif tgt is None and t == 'EAStoryInsert':
                 self.truth.extend(new)
         elif t in ('StoryReplace', 'EAStoryReplace'):
-            op['target'], sh['target'] = self.ref_story()
+            op['target'], sh['target'] = self.ref_story(allow_missing=(t == 'StoryReplace'))
             op['tform'] = 'blank' if op['target'] is None else 'id'
             n = R.choice([1, 1, 1, 2, 3])
             pay = []
@@ -527,6 +541,8 @@ class Ncs(Gen):
                     pay.append(self.gen_story(op['target']))
                 else:
                     pay.append(self.gen_story())
+            if not isinstance(op['target'], str) and sids and R.random() < 0.6:
+                pay[0] = self.gen_story(R.choice(sids))
             R.shuffle(pay)
             op['payload'] = pay
             tgt = op['target']
@@ -635,7 +651,7 @@ class Ncs(Gen):
             if R.random() < 0.3:
                 op['target'], sh['target'] = None, 'end'
             else:
-                op['target'], sh['target'] = self.ref_item(entry)
+                op['target'], sh['target'] = self.ref_item(entry, allow_missing=(t == 'ItemInsert'))
             op['payload'] = self.new_items(R.randint(1, 4), entry)
             if entry is not None:
                 new = [node_iid(i) for i in op['payload']]
@@ -645,11 +661,14 @@ class Ncs(Gen):
                     i = entry[1].index(op['target'])
                     entry[1][i:i] = new
         elif t in ('ItemReplace', 'EAItemReplace'):
-            op['target'], sh['target'] = self.ref_item(entry)
+            op['target'], sh['target'] = self.ref_item(entry, allow_missing=(t == 'ItemReplace'))
             n = R.choice([1, 1, 2, 3])
             pay = self.new_items(n, entry)
             if isinstance(op['target'], str) and R.random() < 0.5:
                 pay[R.randrange(n)] = self.gen_item(op['target'])
+            elif not isinstance(op['target'], str) and entry and entry[1] and R.random() < 0.6:
+                # no usable reference, but the replacement re-uses an id that lives in the story
+                pay[R.randrange(n)] = self.gen_item(R.choice(entry[1]))
             op['payload'] = pay
             if entry is not None and op['target'] in entry[1]:
                 i = entry[1].index(op['target'])
@@ -719,6 +738,25 @@ class Ncs(Gen):
             self.truth = ids_of_content(content)
         elif t == 'ReadyToAir':
             op['air'] = R.choice(['READY', 'NOT READY'])
+        # ---- non-schema-shaped relatives (faulty runs): only C05 / C07 judge them ----------------
+        if self.faulty and R.random() < 0.05:
+            m = {'StorySend': [('drop', 'storyBody'), ('dup', 'storyBody')],
+                 'StoryMove': [('drop_all', 'storyID')],
+                 'ItemMoveMultiple': [('drop_all', 'itemID')],
+                 'StoryReplace': [('drop_all', 'story')],
+                 'ItemReplace': [('drop_all', 'item')],
+                 'StoryDelete': [('drop_all', 'storyID')],
+                 'MetadataReplace': [('dup', 'roSlug')],
+                 'RODelete': [('drop', 'roID')],
+                 'ReadyToAir': [('drop', 'roID')]}.get(t)
+            if m:
+                how, tag = R.choice(m)
+                op['mangle'] = {'how': how, 'tag': tag}
+                op['malformed'] = True
+            elif t in ('EAStorySwap', 'EAItemSwap') and isinstance(op.get('sources'), list):
+                op['sources'] = (op['sources'] + [op['sources'][0]])[:R.choice([1, 3])]
+                sh['sources'] = (sh['sources'] + ['repeat'])[:len(op['sources'])]
+                op['malformed'] = True
         elif t == 'RODelete':
             if R.random() < 0.25:
                 op['extra'] = [self.gen_meta('roSlug')] + ([self.gen_other(1)] if R.random() < 0.4 else [])
